@@ -32,6 +32,7 @@ type Engine struct {
 	globalIDs       map[*ssa.Global]int
 	prelude         string
 	requireVariants bool
+	sequential      bool // monitors do not forget protected state at Lock (single-goroutine histories)
 	onlySafe        bool // thin mode: only clauses labelled safe_* are checked and assumed
 	inlineExternal  map[string]bool
 	effectsMemo     map[*ssa.Function]*effects
@@ -101,6 +102,7 @@ func (e *Engine) load(patterns ...string) error {
 			e.contractFiles = append(e.contractFiles, f)
 		}
 	}
+	embeddedTable = e.contracts.Embedded
 	e.loadSeconds = time.Since(start).Seconds()
 	return nil
 }
@@ -123,6 +125,9 @@ func (e *Engine) loadSpecs(dir string) error {
 
 // useClause says whether a contract clause takes part in this run.
 func (e *Engine) useClause(c Clause) bool {
+	if strings.HasPrefix(c.Label, "seq_") && !e.sequential {
+		return false // clause about single-goroutine histories only
+	}
 	return !e.onlySafe || strings.HasPrefix(c.Label, "safe")
 }
 
@@ -469,8 +474,30 @@ func (e *Engine) callEffects(fn *ssa.Function, c *ssa.CallCommon, tracked map[*s
 		if !spec.Pure {
 			*allocates = true
 		}
+		names := paramNames(callee, spec)
 		for _, m := range spec.Modifies {
 			e.modifiesHeaps(callee, spec, m, hs)
+			// the location actually written is determined by the argument
+			// (it may be a field inside a larger object)
+			mm := strings.TrimSpace(m)
+			if strings.HasPrefix(mm, "*") {
+				for i, n := range names {
+					if n == strings.TrimSpace(mm[1:]) && i < len(c.Args) {
+						storeHeaps(c.Args[i], hs)
+					}
+				}
+			}
+		}
+		// acquiring a monitor forgets the state it protects
+		if k := funcKey(callee); k == "sync.(*Mutex).Lock" && len(c.Args) == 1 {
+			if fa, ok := c.Args[0].(*ssa.FieldAddr); ok {
+				if pt, ok := fa.X.Type().Underlying().(*types.Pointer); ok {
+					root := shapeOf(pt.Elem())
+					if mon := e.contracts.Monitors[embeddedKey(root, fa.Field)]; mon != nil {
+						e.monitorHeaps(root, mon, hs)
+					}
+				}
+			}
 		}
 		return
 	}
@@ -583,6 +610,41 @@ func freeVarsWritten(cf *ssa.Function) map[*ssa.FreeVar]bool {
 		}
 	}
 	return out
+}
+
+// monitorHeaps names the heaps a monitor's modifies clause covers.
+func (e *Engine) monitorHeaps(root *Shape, mon *MonitorSpec, hs map[string]string) {
+	env := &Env{fx: e.newFnCtx(nil), pkg: e.pkgOf(mon.Pkg)}
+	for _, m := range mon.Modifies {
+		m = strings.TrimSpace(m)
+		if strings.HasPrefix(m, "allof(") {
+			name := strings.Trim(strings.TrimSuffix(strings.TrimPrefix(m, "allof("), ")"), "\"")
+			sh := shapeOf(env.resolveTypeExpr(name))
+			if sh.kind == KMap {
+				has, val, hasSort, valSorts, _ := mapHeaps(sh)
+				hs[has[0]] = arrSort(hasSort)
+				for c := range val {
+					hs[val[c]] = arrSort(valSorts[c])
+				}
+				hs["ML|"+sh.key] = arrSort(sInt)
+				continue
+			}
+			for c := 0; c < sh.ncomp(); c++ {
+				hs[heapName(sh, c)] = heapSort(sh, c)
+			}
+			continue
+		}
+		if i := strings.Index(m, "."); i >= 0 && m[:i] == mon.Var {
+			for fi, fn := range root.fnames {
+				if fn == m[i+1:] {
+					lo, hi := root.fieldRange(fi)
+					for c := lo; c < hi; c++ {
+						hs[heapName(root, c)] = heapSort(root, c)
+					}
+				}
+			}
+		}
+	}
 }
 
 func (e *Engine) effectsOf(fn *ssa.Function, depth int) *effects {
